@@ -88,6 +88,7 @@ func (p *c07) Cases(tier string, emit func(interface{})) {
 		}
 	}
 	emit(c07Case{Part: "when"})
+	emit(c07Case{Part: "trim-lexical"})
 	for _, tr := range []string{"full", "mid"} {
 		emit(c07Case{Part: "sweep", Tree: tr, B: c07B(tier), Param: "pairs", Via: "steps"})
 		for _, prm := range c07Params {
@@ -409,6 +410,13 @@ func (p *c07) Run(raw json.RawMessage) eng.Result {
 	decode(raw, &c)
 	var res eng.Result
 	ss := &sigSet{res: &res}
+	if c.Part == "trim-lexical" {
+		var res eng.Result
+		ss := &sigSet{res: &res}
+		c07TrimLexical(&res, ss)
+		res.Outcomes = []string{"trim-lexical"}
+		return res
+	}
 	if c.Part == "when" {
 		c07WhenUnderParams(&res, ss)
 		return res
@@ -772,6 +780,99 @@ func c07WhenUnderParams(res *eng.Result, ss *sigSet) {
 			for _, id := range []string{"w", "v", "u", "l"} {
 				if got[id] != full[id] {
 					ss.add(site+fmt.Sprintf("/node-present-%v-unconstrained-%v", got[id], full[id]), fmt.Sprintf("%s on %s: %s", q, doc, id))
+				}
+			}
+		}
+	}
+}
+
+// c07TrimLexical: with-defaults=trim compares values, not their spelling. Defaults written in a
+// non-canonical way (+5, 010, 1.50, 2.0) and leaves of every type set to the default, to another
+// value, or not at all: the trimmed read shows exactly the leaves whose value differs from the default.
+func c07TrimLexical(res *eng.Result, ss *sigSet) {
+	type lf struct{ name, yang, dflt, equal, other string }
+	leaves := []lf{
+		{"dec", "decimal64 { fraction-digits 2; }", "1.5", "1.5", "2.25"},
+		{"dec2", "decimal64 { fraction-digits 2; }", "2.50", "2.5", "2.51"},
+		{"dec3", "decimal64 { fraction-digits 1; }", "3", "3.0", "3.1"},
+		{"i", "int32", "+5", "5", "6"},
+		{"i2", "int32", "010", "10", "8"},
+		{"u", "uint8", "007", "7", "70"},
+		{"i64", "int64", "-0", "0", "1"},
+		{"b", "boolean", "true", "true", "false"},
+		{"s", "string", "x", "\"x\"", "\"y\""},
+		{"e", "enumeration { enum one; enum two; }", "two", "\"two\"", "\"one\""},
+		{"plain", "int32", "5", "5", "55"},
+	}
+	var sb strings.Builder
+	sb.WriteString(`module tl { namespace "urn:tl"; prefix tl; revision 0; `)
+	for _, l := range leaves {
+		ty := l.yang
+		if !strings.HasSuffix(ty, "}") {
+			ty += ";"
+		}
+		fmt.Fprintf(&sb, `leaf %s { type %s default "%s"; } `, l.name, ty, l.dflt)
+	}
+	sb.WriteString(`container c { `)
+	for _, l := range leaves {
+		ty := l.yang
+		if !strings.HasSuffix(ty, "}") {
+			ty += ";"
+		}
+		fmt.Fprintf(&sb, `leaf %s { type %s default "%s"; } `, l.name, ty, l.dflt)
+	}
+	sb.WriteString(`} }`)
+	m, lerr, fr, msg := c11Load(sb.String(), nil, nil)
+	if lerr != nil || fr != "" {
+		ss.add("C07/trim-lexical/module-does-not-load", fmt.Sprint(lerr, fr, msg))
+		return
+	}
+	for _, l := range leaves {
+		for _, state := range []string{"equal", "other", "unset"} {
+			for _, where := range []string{"", "c"} {
+				doc := "{}"
+				val := map[string]string{"equal": l.equal, "other": l.other}[state]
+				if state != "unset" {
+					doc = fmt.Sprintf(`{"%s":%s}`, l.name, val)
+				}
+				if where == "c" {
+					doc = `{"c":` + doc + `}`
+				}
+				t, err := model.FromJSON(m.DataDefinitions(), []byte(doc))
+				if err != nil {
+					panic(fmt.Sprintf("harness: %s: %v", doc, err))
+				}
+				for _, query := range []string{"with-defaults=trim", "with-defaults=trim&depth=5"} {
+					got := model.NewTree()
+					var rerr error
+					fr, msg, pan := eng.Recover(func() {
+						sel, err := node.NewBrowser(m, store.NewRef(t).Node()).Root().Constrain(query)
+						if err != nil {
+							rerr = err
+							return
+						}
+						rerr = sel.UpsertInto(store.ContainerNode(got))
+					})
+					res.Evals++
+					res.Nontriv++
+					site := fmt.Sprintf("C07/trim-lexical/%s/%s", strings.Fields(l.yang)[0], state)
+					desc := fmt.Sprintf("default %q, data %s, %s", l.dflt, doc, query)
+					holder := got
+					if where == "c" {
+						holder = got.Conts["c"]
+					}
+					shown := false
+					if holder != nil {
+						_, shown = holder.Leaves[l.name]
+					}
+					switch {
+					case pan:
+						ss.add(site+"/panic:"+fr, desc+": "+msg)
+					case rerr != nil:
+						ss.add(site+"/error", desc+": "+rerr.Error())
+					case shown != (state == "other"):
+						ss.add(site+fmt.Sprintf("/shown-%v-want-%v", shown, state == "other"), desc+fmt.Sprintf("; read gives %s", got))
+					}
 				}
 			}
 		}
